@@ -19,6 +19,10 @@ Q = lambda tier, q, t: q if tier == "quick" else t
 def judge(c, impl, model):
     """returns a list of (kind, message); empty = fine.  kind in oracle|corr"""
     bad = []
+    if impl == "badcase baddesc:unregistered":
+        # the case describes an in-memory value holding a registry entry the crate does not have (any more):
+        # not applicable under the current tables
+        return bad
     if c.get("no_panic", True) and not c.get("may_panic"):
         if impl == "panic" or impl.startswith("crash") or impl == "hang":
             if not (model == "panic" and c.get("panic_ok_if_model")):
@@ -196,10 +200,38 @@ def cases_C15(rng, tier):
         for n in huge[:4]:
             b = enc(M((I(1), T("iss")), (I(name) if isinstance(name, int) else name, I(n))))
             out.append(case("dec", "ClaimsSet", b, fam="extra-claim-value", expect_re=r"ok .*" + re.escape(pyspec.show(I(n))) + r".*"))
+    # interpreted positions INSIDE nested carriers: the out-of-range error must come through the enclosing decoders
+    # (recipients of COSE_Mac / COSE_Encrypt / COSE_recipient, counter-signatures); for signatures nested in COSE_Sign
+    # the crate masks every inner error (known finding F6)
+    oor = [2**63, 2**64 - 1, -2**63 - 1, -2**64]
+    inr = [2**63 - 1, -2**63]
+    def hdr_with(pos, n):
+        if pos == "label": return M((I(n), I(0)))
+        if pos == "alg": return M((I(1), I(n)))
+        if pos == "crit": return M((I(2), A(I(n))))
+        return M((I(3), I(n)))
+    for pos in ("label", "alg", "crit", "ct"):
+        for n in oor + inr:
+            h = hdr_with(pos, n)
+            good = n in inr and pos == "label"
+            for prot in (False, True):
+                p_, u_ = (B(enc(h)), M()) if prot else (B(b""), h)
+                rec = A(p_, u_, NULL); sig = A(p_, u_, B(b""))
+                carriers = [("CoseMac", A(B(b""), M(), NULL, B(b""), A(A(B(b""), M(), NULL), rec)), False),
+                            ("CoseEncrypt", A(B(b""), M(), NULL, A(rec)), False),
+                            ("CoseRecipient", A(B(b""), M(), NULL, A(A(B(b""), M(), NULL, A(rec)))), False),
+                            ("CoseSign1", A(B(b""), M((I(7), sig)), NULL, B(b"")), False),
+                            ("CoseEncrypt0", A(B(enc(M((I(7), A(A(B(b""), M(), B(b"")), sig))))), M(), NULL), False),
+                            ("CoseSign", A(B(b""), M(), NULL, A(A(B(b""), M(), B(b"")), sig)), True)]
+                for ty, v, masked in carriers:
+                    if n in oor:
+                        out.append(case("dec", ty, enc(v), fam="nested-range:" + pos, expect="err:Range", strict_err=True, sign_nested=masked))
+                    elif good:
+                        out.append(case("dec", ty, enc(v), fam="nested-range-ok", expect_re=r"ok .*"))
     if tier == "quick":
         # keep the boundary lattice in full, sample the rest
-        keep = [c for c in out if c["fam"] in ("label", "nonce", "key-data-length", "label-encode") or c["fam"].startswith("extra-")]
-        rest = [c for c in out if c["fam"] not in ("label", "nonce", "key-data-length", "label-encode") and not c["fam"].startswith("extra-")]
+        keep = [c for c in out if c["fam"] in ("label", "nonce", "key-data-length", "label-encode") or c["fam"].startswith("extra-") or c["fam"].startswith("nested-range")]
+        rest = [c for c in out if c["fam"] not in ("label", "nonce", "key-data-length", "label-encode") and not c["fam"].startswith("extra-") and not c["fam"].startswith("nested-range")]
         out = keep + rng.sample(rest, min(len(rest), 6000))
     return out
 
